@@ -13,13 +13,15 @@ GENERATORS = ['gen_codepage', 'gen_formats']
 COQ_TARGETS = ['Props/C05.vo', 'Run/RunC05.vo']
 PROPS_MODULE = 'Props.C05'
 THEOREMS = ['bin_roundtrip', 'bin_load_total', 'bin_resave', 'adf_roundtrip', 'adf_resave', 'adf_palette_roundtrip',
-            'xb_roundtrip_one_font', 'xb_roundtrip_two_fonts', 'idf_roundtrip', 'tnd_roundtrip',
-            'palette63_roundtrip', 'font_block_roundtrip', 'layer_get_after_set']
+            'xb_roundtrip_one_font', 'xb_roundtrip_two_fonts', 'xb_resave', 'idf_roundtrip', 'idf_resave',
+            'tnd_roundtrip', 'tnd_resave', 'palette63_roundtrip', 'font_block_roundtrip', 'layer_get_after_set',
+            'known_1_witness', 'known_1_always_refused', 'known_2_witness']
 SWEEP_LEMMAS = ['C05BinProofs.from_u8_vis_sweep (256 bytes x 3 modes: a decoded attribute is visible and on font page 0)',
                 'C05AdfProofs.six_bit_sweep / expand6_idem_sweep (64 six-bit values, 256 byte values of the u8 expression r << 2 | r >> 4)',
                 'C05AdfProofs.ega_offsets_sweep (the generated EGA_COLOR_OFFSETS: 16 distinct indices below 64; EGA_PALETTE has 64 entries)',
                 'C05XBinProofs.xb_two_sweep (3 modes x 8 fg x 16 bg x blink x 2 pages: attribute bit 3 as font page in 512-character mode)',
                 'C05XBinProofs.xb_flags_decode (the generated XBin flag bits are decoded independently: 16 combinations)',
+                'C05XBinProofs.default_font_sweep (the generated default font: 256 glyphs of 16 bytes)',
                 'C18 AttrProofs.dec_enc_sweep / enc_dec_sweep / from_u8_shape_sweep (attribute byte codec, reused)']
 
 FMTS = ['bin', 'adf', 'xb', 'idf', 'tnd']
@@ -783,7 +785,9 @@ TRUSTED = ['Coq 8.16.1 kernel + vm_compute (finite sweeps, model evaluation in s
            'harness/src/c05.rs, the python oracle and the python spec decoders of the search stage']
 UNMODELLED = ['XBin compressed data layout (compress_backtrack / read_data_compressed): property C06; every XBin case here uses SaveOptions.compress = false, '
               'a compressed file makes the loader model return "unmodelled"',
-              're-save stability is proved for BIN and ADF only; for XBin, IDF and Tundra it is covered by stages C and S on mutated files',
+              're-save stability is proved for every file the BIN, ADF, IDF and Tundra loaders accept and for XBin files in 256-character mode, under the size side conditions '
+              'stated in the theorems (IDF: within the writer\'s 80 x 200; Tundra: non-negative height, < 2^30 cells, file < 2^29 bytes; BIN/ADF/Tundra: the SAUCE record such a writer makes, or none); '
+              'XBin files in 512-character mode and files outside those side conditions are covered by stages C and S only (two known findings live there)',
               'cells whose colour is TextAttribute::TRANSPARENT_COLOR (1 << 31) and buffers with more than one layer, an alpha-channel layer or terminal buffers (Buffer::get_char takes other paths)',
               'fonts that are not embedded in the file (BIN, Tundra: the SAUCE font name), BitFont names other than "is it the default font", guess_font_name beyond that (CRC-32 equality is modelled as glyph equality)',
               'ColorOptimizer (SaveOptions.lossles_output = false): property C12; every case here saves with lossles_output = true',
@@ -804,7 +808,8 @@ LEVEL_TEXT = ('Machine-checked proof (Coq, closed under the global context) for 
               'XBin file level with uncompressed data (width 1..4096, height 0..65535, palette block, one font or two fonts of height 1..32 with attribute bit 3 as font page, blink or ice), '
               'IDF both plain and run-length compressed (1..80 x 1..200), Tundra (width 1..1000 with SAUCE, arbitrary 24-bit colours compared as displayed). '
               '`representable_*` spell out what each format can carry; the conclusion is equality of width, height, mode class, every character, displayed colours, blink, font page, embedded palette and glyph tables. '
-              'Re-save stability (load any byte string, save, load again: same picture) is proved for BIN and ADF for ALL byte strings; for XBin, IDF and Tundra it is checked by differential and oracle runs on mutated files only. '
+              'Re-save stability (load ANY byte string the loader accepts, save, load again: same picture) is proved for all five formats: BIN and ADF without size conditions, XBin for 256-character uncompressed files, '
+              'IDF for pictures within the writer\'s 80 x 200 limits, Tundra (position jumps included) for pictures of non-negative height below 2^30 cells; 512-character XBin files are checked by differential and oracle runs on mutated files only. '
               'The models are compared with the real Buffer::to_bytes / from_bytes byte for byte and cell for cell on every run (incl. error and panic branches); constants and tables are regenerated from the source. '
               'The theorems are about the code after eight small fix commits (XBin/ADF heights below 25, three Tundra colour defects, IDF double repeat header, empty font-page list); '
               'two known findings remain (IDF and XBin files that load but cannot be saved again). XBin compression is outside (C06).')
